@@ -345,6 +345,11 @@ class GeckoAsyncSpa(Observable):
 
             return
 
+        if self._protocol is None:
+            # disconnect() was called while the block was being fetched
+            _LOGGER.debug("Spa was disconnected during the handshake, abandon it")
+            return
+
         _LOGGER.debug("Status block was completed, so spa can be connected")
 
         self.struct.build_accessors(self.config_class, self.log_class)
